@@ -74,7 +74,7 @@ theorem C29_withdraw_step_partial (P : Params) (h id : Nat) (p : Prop') (amount 
 
 /-! ## the excluded point -/
 
-def wP : Params := ⟨2, 2, 2, 10000, 300000000000000⟩
+def wP : Params := ⟨2, 2, 2, 10000, 300000000000000, 100⟩
 
 def wProp : Prop' :=
   { budgets := [⟨.imprest, 0, 100000000000, true, false⟩, ⟨.normal, 1, 200000000000, false, false⟩, ⟨.final, 2, 50000000000, false, false⟩],
@@ -170,6 +170,10 @@ theorem acceptTxs_facts (P : Params) (s : State) : ∀ (txs : List Tx) (acc : In
       obtain ⟨i1, i2⟩ := ih (acc + 0) (by omega) h2
       exact ⟨fun tx htx => (by rcases List.mem_cons.mp htx with rfl | htx; exact ⟨acc, h1⟩; exact i1 tx htx),
         (by simp only [proposedSum]; omega)⟩
+    | withdraw0 id i o0 o1 =>
+      obtain ⟨i1, i2⟩ := ih (acc + 0) (by omega) h2
+      exact ⟨fun tx htx => (by rcases List.mem_cons.mp htx with rfl | htx; exact ⟨acc, h1⟩; exact i1 tx htx),
+        (by simp only [proposedSum]; omega)⟩
     | track id k st =>
       obtain ⟨i1, i2⟩ := ih (acc + 0) (by omega) h2
       exact ⟨fun tx htx => (by rcases List.mem_cons.mp htx with rfl | htx; exact ⟨acc, h1⟩; exact i1 tx htx),
@@ -191,6 +195,34 @@ theorem chkP_of_check (P : Params) (s : State) (acc : Int) (id : Nat) (tx : Tx)
       repeat (first | (split at hc; (first | cases hc | skip)))
       all_goals (try cases hc)
       all_goals omega
+  | withdraw0 id' inp out0 out1 =>
+    intro hid; subst hid
+    simp only [check] at hc
+    cases hg : get id' s.props with
+    | none => simp [hg] at hc
+    | some p =>
+      simp only [hg] at hc
+      refine ⟨p, rfl, ?_⟩
+      unfold checkWithdraw0 at hc
+      split at hc
+      · cases hc
+      · by_cases hA : inp - out0 - out1Val out1 < P.minFee
+        · simp [hA] at hc
+        · by_cases hB : avail p.budgets = 0
+          · simp [hA, hB] at hc
+          · by_cases hC : out0 + (inp - out0 - out1Val out1) = avail p.budgets
+            · cases out1 with
+              | none => simp only [out1Val, out1Back] at hC ⊢; omega
+              | some x =>
+                obtain ⟨v, b⟩ := x
+                cases b with
+                | true => simp only [out1Val, out1Back] at hC ⊢; omega
+                | false => simp [hA, hB] at hc
+            · cases out1 with
+              | none => simp [hA, hB, hC] at hc
+              | some x =>
+                obtain ⟨v, b⟩ := x
+                cases b <;> simp [hA, hB, hC] at hc
   | review id' m a => trivial
   | rejvotes id' a => trivial
   | track id' k st => trivial
